@@ -204,6 +204,15 @@ def jobs_c14(prop, tier, seed, reduced=False):
         execs += [race_exec(rng) for _ in range(60 * s)]
         execs += planned_execs(30 if tier == "quick" else 2500, seed)
         J.append(Job(cfg, "temp", "TempTrace", execs, "temp", also=("TempListTrace",)))
+    # temporary stack mode 1 (thread-local storage, lifetime through temporary_stack_initializer only): the same
+    # API-level histories; no stack list, so no atomic steps, schedules or design-level validation
+    execs = known_shapes()
+    execs += [nesting_exec(rng) for _ in range(12 * s)]
+    execs += [growth_exec(rng) for _ in range(6 * s)]
+    execs += [pair_exec(rng) for _ in range(6 * s)]
+    execs += [api_exec(rng, rng.choice([2, 3, 4])) for _ in range(30 * s)]
+    execs += [par_exec(rng, rng.choice([2, 3, 4])) for _ in range(20 * s)]
+    J.append(Job("tm1", "temp", "TempTrace", execs, "temp-mode1"))
     return J
 
 
